@@ -66,8 +66,10 @@ def gen_request(rng, idx, *, allow_close=False, body_max=300):
             n = rng.choice([0, 1, 5, 37, 100, body_max])
             body = {"kind": "cl", "data": body_bytes(rng, n)}
         elif r < 0.9 and version == "HTTP/1.1":
-            nch = rng.randint(0, 5)
-            chunks = [rng.choice([1, 2, 7, 16, 50]) for _ in range(nch)]
+            # the number of chunk boundaries matters to flow control (StreamReader pauses above
+            # max(4, read_bufsize // 16) buffered boundaries): straddle 4/5 often, 4096/4097 sometimes
+            nch = rng.choice([0, 1, 2, 3, 4, 5, 5, 5, 6, 6, 7, 9, 17]) if rng.random() < 0.985 else rng.choice([4096, 4097, 4098])
+            chunks = [rng.choice([1, 2, 7, 16, 50] if nch <= 5 and rng.random() < 0.6 else [1, 1, 2, 3]) for _ in range(nch)]
             exts = [rng.choice(["", "", ";a=b", ";a", ';a="q v"', ";x=1;y=2"]) for _ in range(nch + 1)]
             trailers = [["X-T%d" % i, "tv%d" % i] for i in range(rng.choice([0, 0, 1, 2]))]
             body = {"kind": "chunked", "data": body_bytes(rng, sum(chunks)), "chunks": chunks, "exts": exts,
